@@ -315,6 +315,9 @@ func (k *Keyed[K, V]) resetRoutineLocked(key K, conds ...func(K, V) bool) (exist
 	prevExitedCh := v.exitedCh
 	routine, data := k.ctorCb(key)
 	v = newRunningRoutine(k, key, routine, data, k.backoffFactory)
+	// until v is started it carries the exit channel of the instance it replaces:
+	// whoever starts it later (SetContext, RestartRoutine, another reset) waits for that
+	v.exitedCh = prevExitedCh
 	k.routines[key] = v
 	if k.ctx != nil {
 		v.start(k.ctx, prevExitedCh, false)
